@@ -1,5 +1,7 @@
 pub mod c01;
 pub mod c02;
+pub mod c03;
+pub mod c04;
 pub mod c05;
 pub mod c06;
 pub mod c07;
@@ -11,6 +13,9 @@ pub mod c12;
 pub mod c13;
 pub mod c19;
 pub mod c20;
+pub mod c15;
+pub mod c16;
+pub mod c17;
 pub mod c18;
 pub mod c14;
 
